@@ -60,14 +60,32 @@ func runBarSeq(s *BarSeq) BarObs {
 	}
 	out := BarObs{ID: s.ID}
 	cancelled := false
-	for _, c := range s.Ops {
+	for k, c := range s.Ops {
 		live := !cancelled && !bar.Completed() && !bar.Aborted()
 		refill := int64(-1)
 		switch c.Op {
 		case "incr":
-			bar.IncrInt64(c.A)
+			// every member of the increment family is the same rule; the variant is a function of the walk
+			switch v := (s.ID + k) % 6; {
+			case v == 0 && c.A == 1:
+				bar.Increment()
+			case v == 1 && c.A == 1:
+				bar.EwmaIncrement(time.Millisecond)
+			case v == 2:
+				bar.IncrBy(int(c.A))
+			case v == 3:
+				bar.EwmaIncrBy(int(c.A), time.Millisecond)
+			case v == 4:
+				bar.EwmaIncrInt64(c.A, time.Millisecond)
+			default:
+				bar.IncrInt64(c.A)
+			}
 		case "setcur":
-			bar.SetCurrent(c.A)
+			if (s.ID+k)%2 == 0 {
+				bar.EwmaSetCurrent(c.A, time.Millisecond)
+			} else {
+				bar.SetCurrent(c.A)
+			}
 		case "settotal":
 			bar.SetTotal(c.A, c.F)
 		case "trigger":
